@@ -217,9 +217,12 @@ func gen(t *rapid.T) Case {
 		}
 		c.S, c.Tx, c.Ty = 1, 0, 0
 		if rapid.IntRange(0, 2).Draw(t, "xf") == 0 {
-			c.S = rapid.OneOf(rapid.SampledFrom([]float64{0.5, 0.001, 1000, 3}), rapid.Float64Range(0.1, 10)).Draw(t, "s")
+			c.S = rapid.OneOf(rapid.SampledFrom([]float64{0.5, 0.001, 1000, 3, 1e-5, 1e-6, 1e-8, 1e-12, 1e-100, 1e6, 1e9, 1e100}), rapid.Float64Range(0.1, 10)).Draw(t, "s")
 			c.Tx = rapid.OneOf(rapid.SampledFrom([]float64{0, -7, 100}), rapid.Float64Range(-1000, 1000)).Draw(t, "tx")
 			c.Ty = rapid.OneOf(rapid.SampledFrom([]float64{0, 13, -100}), rapid.Float64Range(-1000, 1000)).Draw(t, "ty")
+			if c.S < 1e-3 || c.S > 1e5 {
+				c.Tx, c.Ty = 0, 0 // extreme scales are taken about the origin (a translation would swamp the shape)
+			}
 		}
 	case "line":
 		nl := rapid.IntRange(1, 3).Draw(t, "nl")
@@ -522,7 +525,7 @@ func TestProp(t *testing.T) {
 		Rule: "rapid: lattice polygons valid by construction (shell = convex hull or x-monotone staircase around a core box, 0-2 convex lattice holes in disjoint " +
 			"cells strictly inside the core, multi-polygons of 1-3 members in disjoint cells) under the spelling orbit (per-ring reversal, rotation, closed/" +
 			"unclosed; 'closed_opposite' = all rings closed, holes wound opposite to the shell, optionally all reversed; 'closed_any' = closed, arbitrary per-ring " +
-			"winding), optionally mapped by a float similarity (scale, translation); exact area and centroid from math/big integer moments. Area/MultiPolygon.Area for " +
+			"winding), optionally mapped by a float similarity (scale from 1e-100 to 1e100, translation for moderate scales); exact area and centroid from math/big integer moments. Area/MultiPolygon.Area for " +
 			"every spelling; MultiPolygon.Centroid for closed rings under every per-ring winding; Polygon.Centroid, op.Centroid and op.Area for closed rings with " +
 			"opposite holes; centroid inside the bounding box. Line strings / multi-line strings (0-12 vertices, lattice or float) for Length (compensated sum) and " +
 			"Distance (independent point-segment formula); Point.Buffer vertices; Bounds.Area/Centroid. Every polygon case is counted non-trivial (each is one orbit " +
